@@ -98,6 +98,18 @@ CHECKS = {
         technique="TLA+ history spec + TLC exhaustive enumeration, behaviour replay into real code with independent read-back",
         design_ref="DESIGN.md section 5 C05",
     ),
+    "C19": dict(
+        level="model_checking",
+        text=("Init.tla is a history machine over CreateEmptyInit / AddEmptyTrack / Set*Descriptor whose state is the abstract init "
+              "segment; it states what ISO/IEC 14496-12/-30 require per media type (handler, media header, language packing or elng, "
+              "sample entry) and the id/trex/next-track-id invariants; TLC enumerates all histories up to the track bound and "
+              "exports the expected projection; each is replayed through the real API, projected before and after an encode/decode "
+              "round trip through both decoders, re-encoded, and a fragment per track id is read back against the decoded init."),
+        note=("Trusted: TLC, Go replayer. Codec parameter sets are the repository's own test vectors (one per codec); their parsed "
+              "dimensions are trusted here (C15 judges the parsers)."),
+        technique="TLA+ history spec + TLC exhaustive enumeration, behaviour replay into real code",
+        design_ref="DESIGN.md section 5 C19",
+    ),
 }
 
 PENDING_REASON = "check not built yet in this revision (planned in DESIGN.md section 5); not claimed until its machinery exists"
